@@ -16,6 +16,7 @@ type vScenario struct {
 	sdls []string
 	w    *vWorld
 	ops  []vOp
+	hint func(interface{}) (string, bool) // an id-to-type hint that is exact for this scenario's ids (nil: none)
 }
 
 func vPickScenario() (vScenario, vOp) {
@@ -29,16 +30,16 @@ func vPickScenario() (vScenario, vOp) {
 	}
 	if i < len(readme) {
 		verifLog("op: " + readme[i].q)
-		return vScenario{[]string{vSA, vSB, vSC}, vReadmeWorld(vK), readme}, readme[i]
+		return vScenario{[]string{vSA, vSB, vSC}, vReadmeWorld(vK), readme, vExactHint}, readme[i]
 	}
 	i -= len(readme)
 	if i < len(abstract) {
 		verifLog("op: " + abstract[i].q)
-		return vScenario{[]string{vSC1, vSC2}, vAbstractWorld(), abstract}, abstract[i]
+		return vScenario{[]string{vSC1, vSC2}, vAbstractWorld(), abstract, vAbstractHint}, abstract[i]
 	}
 	i -= len(abstract)
 	verifLog("op: " + twins[i].q)
-	return vScenario{[]string{vSE1, vSE2}, vTwinsWorld(), twins}, twins[i]
+	return vScenario{[]string{vSE1, vSE2}, vTwinsWorld(), twins, nil}, twins[i]
 }
 
 type vPair struct{ typ, field string }
@@ -509,7 +510,12 @@ func VerifRoundTrips() {
 	if op.vars != nil {
 		vars = op.vars()
 	}
-	f := vNewFed(sc.w, nil, sc.sdls...)
+	// with or without the id-to-type hint option (it must not change how requests are batched)
+	var opts []GatewayOption
+	if sc.hint != nil && verifChoice("hint", 2) == 1 {
+		opts = []GatewayOption{WithGetParentTypeFromIDFunc(sc.hint)}
+	}
+	f := vNewFed(sc.w, opts, sc.sdls...)
 	doc, derr := gqlparser.LoadQuery(f.gw.schema, op.q)
 	verifAssert(derr == nil, "scenario operation is valid")
 	var sp planner.SequentialPlanner
